@@ -4,6 +4,13 @@
    for SOME fn; the code under test is `init true true true` (repairs 08c4569 = F4, 2158065 = F11 and 56e7f66 = F39
    present); statements with `f4`/`fc` universally quantified (and no `fn_fixed s = true` hypothesis) hold for the
    pinned variants as well.  F40 is a known finding: see section 7.
+   Monitor-only clause (no theorem here, on purpose): "the callable runs in the PORTAL's event-loop thread, whatever
+   kind of thread issued the call" (plain thread, AnyIO worker of the portal's loop, AnyIO worker of another loop).
+   The model has exactly one loop: `ThreadLand k` IS "the marshalled start_soon runs in the portal's loop".  Which loop
+   a hand-over is routed to is decided in the caller's thread (from_thread._token_or_error / run_sync's token), i.e. on
+   the other side of the boundary, before any op of this LTS; a caller-kind index with a ghost `ran_on_portal_loop`
+   would be true by construction and prove nothing about that routing.  It is part of the oracle contract and is
+   validated for every caller kind by the end-to-end monitor harness/c15.py e2e_caller_kinds (seeded change C15_f).
    This file contains only statements closed by `exact` and their Print Assumptions. *)
 From AV Require Import Base Portal PortalProofs.
 
